@@ -1140,6 +1140,25 @@ def _ops(ref):
                        cb.add_flow(cb.find_compartment('NEWC'), cb.find_compartment(names[0]), 'KN1')), r)
 
 
+def _compare_orders(cs, cs1, add, what):
+    """the same parts put together in two different insertion orders"""
+    try:
+        if not (cs == cs1 and cs1 == cs):
+            add(CS + '__eq__', CC_ORDER_EQ, f'{what}cs(order 0) != cs(order 1)')
+        elif hash(cs) != hash(cs1):
+            add(CS + '__hash__', CC_ORDER_HASH, f'{what}equal systems, different hashes')
+    except Exception as e:
+        add(CS + '__eq__', CC_EQ_ERR, f'{what}cs(order 0) == cs(order 1) raised {_exc(e)}')
+    try:
+        if tuple(cs.eqs) != tuple(cs1.eqs) or list(cs.compartment_names) != list(cs1.compartment_names) or \
+                cs.compartmental_matrix != cs1.compartmental_matrix or cs.amounts != cs1.amounts or \
+                cs.zero_order_inputs != cs1.zero_order_inputs:
+            add(CS + '_order_compartments', CC_ORDER_EQS,
+                f'{what}names {cs.compartment_names} vs {cs1.compartment_names}; eqs {cs.eqs} vs {cs1.eqs}')
+    except Exception as e:
+        add(CS + 'eqs', CC_ERR, f'{what}accessor raised {_exc(e)}')
+
+
 def _check_cs_case(case, with_tocs=True):
     """all C05 clauses on one case; returns {(fid, clause): detail}"""
     px = _px()
@@ -1168,21 +1187,7 @@ def _check_cs_case(case, with_tocs=True):
     _check_system(cs1, ref, add, 'reverse insertion order: ')
 
     # ---- two insertion orders ----------------------------------------------------------------
-    try:
-        if not (cs == cs1 and cs1 == cs):
-            add(CS + '__eq__', CC_ORDER_EQ, 'cs(order 0) != cs(order 1)')
-        elif hash(cs) != hash(cs1):
-            add(CS + '__hash__', CC_ORDER_HASH, 'equal systems, different hashes')
-    except Exception as e:
-        add(CS + '__eq__', CC_EQ_ERR, f'cs(order 0) == cs(order 1) raised {_exc(e)}')
-    try:
-        if tuple(cs.eqs) != tuple(cs1.eqs) or list(cs.compartment_names) != list(cs1.compartment_names) or \
-                cs.compartmental_matrix != cs1.compartmental_matrix or cs.amounts != cs1.amounts or \
-                cs.zero_order_inputs != cs1.zero_order_inputs:
-            add(CS + '_order_compartments', CC_ORDER_EQS,
-                f'names {cs.compartment_names} vs {cs1.compartment_names}; eqs {cs.eqs} vs {cs1.eqs}')
-    except Exception as e:
-        add(CS + 'eqs', CC_ERR, f'accessor raised {_exc(e)}')
+    _compare_orders(cs, cs1, add, '')
 
     # ---- serialisation -------------------------------------------------------------------------
     try:
@@ -1279,6 +1284,12 @@ def _check_cs_case(case, with_tocs=True):
                  and label == first_two_inputs):
             # systems outside the enumerated family: two dosing compartments, no dose, two inputs, n+1
             _check_system(cs2, want, add, f'after {label}: ')
+        if method == 'add_dose' and label.startswith(f"add_dose({NAMES[(case['dose'] + 1) % case['n']]},"):
+            try:
+                # the same two-dose system put together from scratch in the reverse insertion order
+                _compare_orders(cs2, _cs_build(want, 1), add, f'{label} vs. the same system built in reverse order: ')
+            except Exception as e:
+                add(CB + method, CC_OP_ERR, f'{label} on the reverse-order system raised {_exc(e)}')
         if want != ref:
             try:
                 if cs2 == cs or cs == cs2:
